@@ -1503,6 +1503,12 @@ func (styleFor StyleFor) SetPageComputedStylesT(pageType utils.PageElement, html
 
 // Return tokens with resolved CSS variables.
 func resolveVar(computed map[string]pr.RawTokens, token Token) []Token {
+	return resolveVarRec(computed, token, map[string]bool{})
+}
+
+// [inProgress] holds the names of the custom properties being substituted,
+// so that cyclic references are cut instead of followed forever.
+func resolveVarRec(computed map[string]pr.RawTokens, token Token, inProgress map[string]bool) []Token {
 	if !validation.HasVar(token) {
 		return nil
 	}
@@ -1511,23 +1517,26 @@ func resolveVar(computed map[string]pr.RawTokens, token Token) []Token {
 	if utils.AsciiLower(fn.Name) != "var" {
 		arguments := []Token{}
 		for _, argument := range fn.Arguments {
-			if fna, isFunction := argument.(pa.FunctionBlock); isFunction && utils.AsciiLower(fna.Name) == "var" {
-				arguments = append(arguments, resolveVar(computed, argument)...)
+			// also resolve var() nested in other functions
+			if resolved := resolveVarRec(computed, argument, inProgress); resolved != nil {
+				arguments = append(arguments, resolved...)
 			} else {
 				arguments = append(arguments, argument)
 			}
 		}
-		token = pa.NewFunctionBlock(token.Pos(), fn.Name, arguments)
-		if resolved := resolveVar(computed, token); len(resolved) != 0 {
-			return resolved
-		}
-		return []Token{token}
+		return []Token{pa.NewFunctionBlock(token.Pos(), fn.Name, arguments)}
 	}
 
 	_, args := pa.ParseFunction(token)
 	// first arg is name, next args are default value
 	varNameToken, default_ := args[0], args[1:]
 	variableName := varNameToken.(pa.Ident).Value
+	if inProgress[variableName] {
+		// cyclic reference: invalid at computed-value time
+		return []Token{}
+	}
+	inProgress[variableName] = true
+	defer delete(inProgress, variableName)
 
 	source := default_
 	if l := computed[variableName]; len(l) != 0 {
@@ -1535,7 +1544,7 @@ func resolveVar(computed map[string]pr.RawTokens, token Token) []Token {
 	}
 	computedValue := []Token{}
 	for _, value := range source {
-		if resolved := resolveVar(computed, value); resolved != nil {
+		if resolved := resolveVarRec(computed, value, inProgress); resolved != nil {
 			computedValue = append(computedValue, resolved...)
 		} else {
 			computedValue = append(computedValue, value)
